@@ -725,7 +725,99 @@ func c12Closed(u *vfUnit, sess *vfSession, f *File, label string, closeFails boo
 	}
 }
 
+// c12CloseRaceSync: Close racing with Sync against a peer that advertises fsync@openssh.com (the package's own servers do
+// not, so Sync never reaches the wire against them): nothing carrying the handle is written after its CLOSE.
+func c12CloseRaceSync(u *vfUnit) {
+	for round := 0; round < 12; round++ {
+		model := &vfModel{handles: map[string]uint64{}, writes: map[string][]byte{}, inflight: map[uint32]bool{}}
+		var mu sync.Mutex
+		closeSeen, after := 0, 0
+		afterDesc := ""
+		handle := ""
+		peer := &vfPeer{Handler: model.handler,
+			VersionFrame: vfPkt{Type: rfVersion, Version: 3, Exts: [][2]string{{"fsync@openssh.com", "1"}}}.Frame(),
+			OnRequest: func(req vfPkt, raw []byte, perr error) {
+				mu.Lock()
+				defer mu.Unlock()
+				if perr != nil || handle == "" {
+					return
+				}
+				if req.Type == rfClose && req.Handle == handle {
+					closeSeen++
+				} else if closeSeen > 0 && req.Handle == handle {
+					after++
+					afterDesc = req.String()
+				}
+			}}
+		c, _, _, ce, err := vfPeerClient(peer, vfPipeOpts{})
+		if err != nil {
+			u.Inconclusive("connect: %v", err)
+			return
+		}
+		f, err := c.OpenFile("/f/77", os.O_RDWR)
+		if err != nil {
+			u.Violation("open-failed", "close-race-sync: "+err.Error(), nil)
+			ce.Close()
+			peer.Stop()
+			return
+		}
+		mu.Lock()
+		handle = f.handle
+		mu.Unlock()
+		nG := 2 + round%5
+		var wg sync.WaitGroup
+		var started atomic.Int32
+		stop := make(chan struct{})
+		for g := 0; g < nG; g++ {
+			wg.Add(1)
+			go func() {
+				defer wg.Done()
+				for it := 0; it < 300; it++ {
+					select {
+					case <-stop:
+						return
+					default:
+					}
+					started.Add(1)
+					if err := f.Sync(); errors.Is(err, os.ErrClosed) && it > 3 {
+						return
+					}
+				}
+			}()
+		}
+		for spin := 0; started.Load() < int32(1+round*3) && spin < 100000; spin++ {
+			runtime.Gosched()
+		}
+		label := fmt.Sprintf("close-race-sync/goroutines=%d/round=%d", nG, round)
+		if w, dump := vfAwait(vfGo(func() { f.Close(); wg.Wait() }), 120*time.Second); w != vfDone {
+			close(stop)
+			if w == vfStuck {
+				u.Violation("close-hangs", label+": Close racing with Sync does not return\n"+vfTrim(dump, 2000), nil)
+			} else {
+				u.Inconclusive("%s: wall-clock cap", label)
+			}
+			ce.Close()
+			peer.Stop()
+			return
+		}
+		vfAwait(vfGo(func() { c.Close() }), 60*time.Second)
+		peer.Stop()
+		ce.Close()
+		u.Count("close_races", 1)
+		u.Count("close_races_against_a_peer_with_fsync", 1)
+		mu.Lock()
+		if closeSeen != 1 {
+			u.Violation(fmt.Sprintf("close-requests-sent-%d", closeSeen), fmt.Sprintf("%s: %d CLOSE requests for the handle were written", label, closeSeen), nil)
+		}
+		if after > 0 {
+			u.Violation("request-after-close-on-wire", fmt.Sprintf("%s: %d request(s) carrying the closed handle were written after its CLOSE, e.g. %s", label, after, afterDesc), nil)
+		}
+		mu.Unlock()
+	}
+}
+
 func c12CloseRaces(u *vfUnit) {
+	c12CloseRaceSync(u)
 	r := u.Rng
 	i := u.Index / 2
 	kind := vfKind(i % 2)
